@@ -158,7 +158,15 @@ ParseComps(b, p, acc) ==
                IN IF Bit(f, 32) THEN ParseComps(b, p + 4 + n, acc2)
                   ELSE [ok |-> TRUE, comps |-> acc2, next |-> p + 4 + n, last |-> f]
 
-BadComposite == [ok |-> FALSE, used |-> 0, comps |-> <<>>, hasinstr |-> FALSE, instr |-> <<>>]
+(* Which record's WE_HAVE_INSTRUCTIONS bit counts?  The pseudo-code of the specification tests  *)
+(* the flags of the LAST record; the bit's description ("following the last component are        *)
+(* instructions") does not say where the bit is to be found, and readers exist that accept it on *)
+(* ANY record.  Both readings are admitted when they differ (two-readings rule): the primary     *)
+(* result follows the last record, (althas, altinstr) is the other reading, present when an      *)
+(* earlier record carries the bit, the last does not, and a well-formed instruction block        *)
+(* follows the last component.                                                                   *)
+BadComposite == [ok |-> FALSE, used |-> 0, comps |-> <<>>, hasinstr |-> FALSE, instr |-> <<>>,
+                 althas |-> FALSE, altinstr |-> <<>>]
 DecodeComposite(b) ==
   LET c == ParseComps(b, 0, <<>>) IN
   IF ~c.ok THEN BadComposite
@@ -167,8 +175,12 @@ DecodeComposite(b) ==
          ELSE LET n == RdU16(b, c.next) IN
               IF c.next + 2 + n > Len(b) THEN BadComposite
               ELSE [ok |-> TRUE, used |-> c.next + 2 + n, comps |-> c.comps, hasinstr |-> TRUE,
-                    instr |-> SubSeq(b, c.next + 3, c.next + 2 + n)]
-    ELSE [ok |-> TRUE, used |-> c.next, comps |-> c.comps, hasinstr |-> FALSE, instr |-> <<>>]
+                    instr |-> SubSeq(b, c.next + 3, c.next + 2 + n), althas |-> FALSE, altinstr |-> <<>>]
+    ELSE LET early == \E j \in 1..Len(c.comps) : Bit(c.comps[j].flags, 256)
+             n     == IF c.next + 2 <= Len(b) THEN RdU16(b, c.next) ELSE 0
+             alt   == early /\ c.next + 2 <= Len(b) /\ c.next + 2 + n <= Len(b)
+         IN [ok |-> TRUE, used |-> c.next, comps |-> c.comps, hasinstr |-> FALSE, instr |-> <<>>,
+             althas |-> alt, altinstr |-> IF alt THEN SubSeq(b, c.next + 3, c.next + 2 + n) ELSE <<>>]
 
 ---------------------------------------------------------------------------
 (* A glyph record = the bytes between two loca offsets.  Empty record =    *)
@@ -187,7 +199,7 @@ Value(d) == [k |-> d.k, nc |-> d.nc, bbox |-> d.bbox, body |-> d.body, comps |->
 DecodeGlyph(r) ==
   LET base == [ok |-> TRUE, k |-> "nil", nc |-> 0, bbox |-> <<0, 0, 0, 0>>, body |-> <<>>, comps |-> <<>>,
                instr |-> <<>>, hasinstr |-> FALSE, full |-> <<>>, used |-> 0, ends |-> <<>>,
-               pts |-> <<>>, sinstr |-> <<>>]
+               pts |-> <<>>, sinstr |-> <<>>, althas |-> FALSE, altinstr |-> <<>>]
   IN IF Len(r) = 0 THEN base
      ELSE IF Len(r) < 10 THEN [base EXCEPT !.ok = FALSE]
      ELSE LET nc   == RdI16(r, 0)
@@ -201,7 +213,7 @@ DecodeGlyph(r) ==
                ELSE LET c == DecodeComposite(b) IN
                     [base EXCEPT !.ok = c.ok, !.k = "c", !.nc = -1, !.bbox = bbox, !.full = b,
                                  !.used = c.used, !.comps = c.comps, !.instr = c.instr,
-                                 !.hasinstr = c.hasinstr]
+                                 !.hasinstr = c.hasinstr, !.althas = c.althas, !.altinstr = c.altinstr]
 
 \* An in-memory glyph g (fields of Value) is a faithful image of the decoded record d.  The
 \* library may keep padding bytes in the body of a simple glyph (the property does not forbid it),
@@ -212,8 +224,9 @@ Represents(g, d) ==
   /\ d.k = "s" => /\ g.nc = d.nc
                   /\ Len(g.body) >= d.used /\ Len(g.body) <= Len(d.full)
                   /\ g.body = SubSeq(d.full, 1, Len(g.body))
-  /\ d.k = "c" => /\ g.comps = d.comps /\ g.instr = d.instr
-                  /\ d.hasinstr => g.hasinstr
+  /\ d.k = "c" => /\ g.comps = d.comps
+                  /\ \/ g.instr = d.instr /\ (d.hasinstr => g.hasinstr)
+                     \/ d.althas /\ g.hasinstr /\ g.instr = d.altinstr
 
 \* The one ambiguity of the format: a zero-contour glyph consisting of the header only, followed
 \* by two zero bytes of padding, reads as a zero-contour glyph with instructionLength = 0.  Both
@@ -241,6 +254,11 @@ EncodeValue(g) ==
   ELSE IF g.k = "s" THEN Header(g.nc, g.bbox) \o g.body
   ELSE Header(-1, g.bbox) \o CompBytes(g.comps)
          \o (IF g.hasinstr THEN U16(Len(g.instr)) \o g.instr ELSE <<>>)
+
+\* the same with another negative numberOfContours in the header of a composite glyph
+\* ("if negative, this is a composite glyph -- the value -1 should be used")
+EncodeValueH(g, hnc) ==
+  IF g.k = "c" THEN LET e == EncodeValue(g) IN I16(hnc) \o SubSeq(e, 3, Len(e)) ELSE EncodeValue(g)
 
 \* component list and its rewriting
 ComponentIds(g) == [j \in 1..Len(g.comps) |-> g.comps[j].gid]
